@@ -12,8 +12,9 @@
 From Coq Require Import String.
 From Coq Require Import List Ascii ZArith Bool.
 From CGV Require Import Base.PyBase Base.PyVal Base.NxGraph Gen.HydroGen Hydro.Hydrogens Hydro.Squash
-     Hydro.SquashDefs Hydro.SquashProofs.
+     Hydro.SquashDefs Hydro.SquashProofs Hydro.SquashTotal.
 From CGV Require Hydro.HydroCheck Hydro.SquashCheck.
+From CGV Require Resolve.GraphOps Resolve.CopyProofs.
 Import ListNotations.
 Open Scope Z_scope.
 
@@ -71,6 +72,27 @@ Theorem C10_squash_count_per_pair : forall g g', wf_graph g -> squash_atoms g = 
   (length g' + length (bang_items g) = length g)%nat.
 Proof. exact squash_count_per_pair. Qed.
 
+(** TOTALITY: on a well-formed graph whose nodes carry list-valued fragid and mapping and whose `bonding`
+    edge attributes are descriptor pairs, squash_atoms always returns (so the count theorem is unconditional) *)
+Theorem C10_squash_total : forall g, wf_graph g -> typed_g g -> bondings_ok (edge_attr_items g squash_edge_attr) ->
+  exists g', squash_atoms g = Ok g' /\ typed_g g' /\ wf_graph g' /\
+             (length g' + length (squash_plan [] (bang_items g)) = length g)%nat.
+Proof. exact squash_total. Qed.
+(** the decidable forms of these hypotheses, evaluated by ./check C10 on every recorded input of squash_atoms *)
+Theorem C10_hypotheses_decidable : forall g,
+  (wf_graphb g = true -> wf_graph g) /\ (typed_gb g = true -> typed_g g) /\
+  (bondings_okb g = true -> bondings_ok (edge_attr_items g squash_edge_attr)).
+Proof. intros g. split; [apply wf_graphb_sound|]. split; [apply typed_gb_sound|apply bondings_okb_sound]. Qed.
+(** for resolver-produced graphs the typedness is not a hypothesis: it follows from what
+    resolve_disconnected_molecule / merge_graphs establish (resolver component, Resolve/CopyProofs.v) and is
+    kept by the all-atom bond-creation step *)
+Theorem C10_squash_total_resolver : forall fd legacy meta m1 fg1 m2 fg2, CopyProofs.wf_dict fd ->
+  GraphOps.resolve_disconnected fd meta = Ok (m1, fg1) -> GraphOps.bonding_step legacy true meta m1 fg1 = Ok (m2, fg2) ->
+  wf_graph m2 -> bondings_ok (edge_attr_items m2 squash_edge_attr) ->
+  exists g', squash_atoms m2 = Ok g' /\ typed_g g' /\ wf_graph g' /\
+             (length g' + length (squash_plan [] (bang_items m2)) = length m2)%nat.
+Proof. exact squash_total_resolver. Qed.
+
 (** non-vacuity: a chain of three fragments sharing one atom, next to an ordinary `$` bond *)
 Example C10_nonvacuous :
   wf_graph g_chain /\ length (bang_items g_chain) = 2%nat /\ length (squash_plan [] (bang_items g_chain)) = 2%nat /\
@@ -106,3 +128,6 @@ Print Assumptions C10_sq_root_total.
 Print Assumptions C10_squash_count.
 Print Assumptions C10_squash_count_per_pair.
 Print Assumptions C10_refuted_stale_hcount_aromatic.
+Print Assumptions C10_squash_total.
+Print Assumptions C10_hypotheses_decidable.
+Print Assumptions C10_squash_total_resolver.
